@@ -51,7 +51,10 @@ RULE = ('case = (record, dt, Signal|AccSignal, p2_plus, explicit n); each case r
         'offset, extreme at the first/last sample, flat ends; dt: vf/gen.py classes, decades 1e-9..1e3, int, np.float64, '
         'np.float32, gen.awkward_dt; record shapes one-sided, monotone, tail-heavy, one changed sample, added Nyquist '
         'component, one sample 1e3..1e12 times the others, exact zeros inside; lengths 2^k-1, 2^k, 2^k+1 for k up to 17 '
-        '(sampled bins); explicit n also at and next to the powers of two above npts; integer options as int / np.int64 / np.int32, passed by keyword, positionally, or all-keyword; the '
+        '(sampled bins); extreme but valid scales (gen.record(extreme=True), gen.special_scale: |x| 1e-300..1e-165 or '
+        '1e155..1e300, 1e-150 next to 1e150 in one record, ripple on a baseline, counts above 2**24) in float64/list form '
+        'with an ordinary dt; explicit n with a prime factor > 11 (46, 1018, 4684, ...) '
+        '; explicit n also at and next to the powers of two above npts; integer options as int / np.int64 / np.int32, passed by keyword, positionally, or all-keyword; the '
         'spectrum handed to the inverse helpers as the object\'s own array, a caller array, list, tuple, read-only, '
         'strided view or complex64, the same object to 2-3 consecutive calls. '
         'distinct = digest(values, container, dt, class, options); non-trivial = record not identically zero. '
@@ -86,6 +89,8 @@ ASSUMPTIONS = ['finite 1-D record of length >= 2, real or - as returned by the l
                'tolerances are relative to dt*sum|x| (bins), to each frequency, to dt*sum x^2 (Parseval, accumulated in double '
                'precision) and to max|x| (round trip): valid for every amplitude / dt / dynamic range generated (1e-12..1e12, '
                'dt 1e-9..1e3, spikes up to 1e12 x the rest); a bin is a global sum, so no local scale exists for it',
+               'Parseval is judged only while the squares of the samples are normal doubles (1e-150 <= |x| <= 1e150); every '
+               'other clause is linear or scale-free in the record and is judged at the extreme scales too',
                'oracle vf/oracles/dft.py is correct (direct sum with integer phase reduction; self-test at start-up)']
 MIN_EVALS = {   # about half of what a normal run reaches
     'quick': {'gen_fa_spectrum.bins==dt*DFT': 2500, 'lazy.bins==dt*DFT': 7000,
@@ -315,6 +320,10 @@ def check_spectrum(ctx, where, wit, x, dt, N, fa, fr, bins_label='bins==dt*DFT',
     # Parseval on the reported bins + the unreported bin floor(N/2) from the record
     if np.iscomplexobj(x):
         return              # the one-sided identity needs the Hermitian symmetry of a real record
+    peak = float(np.max(np.abs(x))) if len(x) else 0.0
+    if peak > 1e150 or (peak > 0 and peak * min(dt, 1.0) < 1e-150):      # small samples next to large ones are harmless
+        ctx.observe('parseval not judged: squares of the samples leave the range of normal doubles')
+        return
     with np.errstate(all='ignore'):
         lhs, rhs = O.parseval_sides(x_pad, dt, fa)
     okp = bool(np.isfinite(rhs)) and abs(lhs - rhs) <= T['parseval'] * lhs
@@ -665,7 +674,18 @@ NARROW = [('int32', -2 ** 31, 2 ** 31 - 1), ('int16', -2 ** 15, 2 ** 15 - 1), ('
 
 def _draw_input(rng, npts, allow_f32=True):
     """(values container, memory form, record class, container name): the dtype / container / view forms of a record."""
-    x, rcls = gen.record(rng, npts)
+    x, rcls = gen.record(rng, npts, extreme=True)
+    if 'extreme-scale' not in rcls and rng.random() < 0.06:
+        x, suffix = gen.special_scale(rng, x)      # tiny / huge / extreme range / ripple on a baseline / counts > 2**24
+        rcls += suffix
+    if 'extreme' in rcls or 'ripple' in rcls or 'counts' in rcls:
+        # every value is a normal double but squares / products of samples under- or overflow: float64 or list only
+        k = rng.random()
+        if k < 0.6:
+            return x, None, rcls, 'f64'
+        if k < 0.8:
+            return [float(v) for v in x], None, rcls, 'list-float'
+        return x, ['strided', 'reversed', 'readonly'][int(rng.integers(3))], rcls, 'f64-view'
     r = rng.random()
     # scales beyond vf/gen.py: micro and huge amplitudes, a large offset on a small signal
     if r < 0.08:
@@ -960,6 +980,11 @@ def _roundtrip(ctx, eqsig, xf, dt, N, fa, wit, what, stype, T=TIGHT, style='kw',
         return
     if np.shape(fa) != (N // 2,):
         return                     # already reported by the nbins clause
+    if fas_form == 'c64':                  # only while every bin is a normal float32 (not at the extreme scales)
+        mag = np.abs(np.asarray(fa))
+        mag = mag[mag > 0]
+        if mag.size and (float(np.max(mag)) > 1e30 or float(np.min(mag)) < 1e-30):
+            fas_form = None
     given = _fas_as(fa, fas_form)
     if fas_form == 'c64':
         T = LOOSE
@@ -1305,7 +1330,7 @@ def _draw_history(rng, h, tier):
             xin = x
     else:                                                   # any dtype / container / view form for the simple mutators
         xin, form, rcls, cont = _draw_input(rng, npts)
-    dt = gen.dt(rng) if need_long or rng.random() < 0.7 else _draw_dt(rng)[0]
+    dt = gen.dt(rng) if need_long or 'extreme' in rcls or rng.random() < 0.7 else _draw_dt(rng)[0]
     mutators = []
     n_now = npts
     for k in kinds:
@@ -1379,9 +1404,26 @@ def _draw_history(rng, h, tier):
 
 
 # ---------------------------------------------------------------------------------------------------- workload
+def _largest_prime_factor(n):
+    f, p = 1, 2
+    while p * p <= n:
+        while n % p == 0:
+            f, n = p, n // p
+        p += 1
+    return max(f, n) if n > 1 else f
+
+
 def _explicit_n(rng, npts, i):
     """Explicit n >= npts cycling through the classes of DESIGN (c)."""
-    k = i % 7
+    k = i % 8
+    if k == 7:                                         # a prime factor > 11 (not a 'fast' FFT length): 46, 1018, 4684, ...
+        fixed = [v for v in (46, 1018, 4684) if npts <= v <= 2 * npts + 8]
+        if fixed and rng.random() < 0.5:
+            return fixed[int(rng.integers(len(fixed)))]
+        n = npts + int(rng.integers(0, 6))
+        while _largest_prime_factor(n) <= 11:
+            n += 1
+        return n
     if k == 6:                                         # at and next to the powers of two above npts
         e = O.ceil_log2(npts) + int(rng.integers(0, 2))
         cand = [v for v in ((1 << e) - 1, 1 << e, (1 << e) + 1) if v >= npts]
@@ -1418,9 +1460,11 @@ def _draw_case(rng, npts, i, fixed, ci):
     """Parameters of one rel_agreement case (everything that is random is drawn here and stored, for the replay)."""
     xin, form, rcls, cont = _draw_input(rng, npts)
     dt, dt_form = _draw_dt(rng)
+    if 'extreme' in rcls:
+        dt, dt_form = gen.dt(rng), None
     p = {'values': xin, 'form': form, 'dt': dt, 'dt_form': dt_form, 'cls': 'AccSignal' if ci % 2 else 'Signal',
          'p2_plus': int(i % 4) if fixed else int(rng.integers(0, 4)),
-         'n': _explicit_n(rng, npts, i if fixed else int(rng.integers(0, 7))),
+         'n': _explicit_n(rng, npts, i if fixed else int(rng.integers(0, 8))),
          'int_form': [None, None, 'np.int64', 'np.int32'][int(rng.integers(4))],
          'style': ['kw', 'kw', 'pos', 'kw-all'][int(rng.integers(4))],
          'both': bool(rng.random() < 0.25),
@@ -1469,10 +1513,10 @@ def run_shard(ctx):
         except Exception as e:
             ctx.exception('gen_fa_spectrum.bins==dt*DFT', dict(p, fn='rel.agreement'), e)
         # relations between executions on a part of the cases (float64 records, float dt)
-        x = gen.record(rng, npts)[0] if ci % 3 != 2 else None
-        dtr = float(dt)
+        x = gen.record(rng, npts, extreme=True)[0] if ci % 3 != 2 else None
+        dtr = float(dt) if 1e-4 <= float(dt) <= 10 else gen.dt(rng)
         if ci % 3 == 0:
-            y, _ = gen.record(rng, npts)
+            y, _ = gen.record(rng, npts, extreme=True)
             if rng.random() < 0.5:
                 a, b = float(2.0 ** rng.integers(-3, 4)), float(-(2.0 ** rng.integers(-3, 4)))
             else:
@@ -1500,13 +1544,13 @@ def run_shard(ctx):
                 ctx.exception('trailing-zeros', dict(q, fn='rel.trailing_zeros'), e)
         if ci % 3 == 2:
             mode = [('default',), ('n', p['n']), ('nopad',)][int(rng.integers(3))]
-            q = {'values': gen.record(rng, npts)[0] + float(rng.integers(0, 2)), 'dt': dtr, 'cls': clsname, 'mode': list(mode),
+            q = {'values': gen.record(rng, npts, extreme=True)[0] + float(rng.integers(0, 2)), 'dt': dtr, 'cls': clsname, 'mode': list(mode),
                  'stype': 'signal' if rng.random() < 0.5 else 'acc', 'p2_plus': int(rng.integers(0, 3)),
                  'n_extra': int(rng.integers(0, 12)), 'first': ['fa_spectrum', 'fa_freqs', 'fa_frequencies'][int(rng.integers(3))]}
             rel_inverse_object(ctx, eqsig, q)
         if ci % 4 == 2:
             mode = [('default',), ('p2', p['p2_plus']), ('n', p['n']), ('nopad',)][int(rng.integers(4))]
-            q = {'x1': gen.record(rng, npts)[0], 'x2': gen.record(rng, npts)[0], 'dt': dtr, 'mode': list(mode), 'cls': clsname,
+            q = {'x1': gen.record(rng, npts, extreme=True)[0], 'x2': gen.record(rng, npts, extreme=True)[0], 'dt': dtr, 'mode': list(mode), 'cls': clsname,
                  'stype': p['stype']}
             try:
                 rel_back_to_back(ctx, eqsig, q)
